@@ -245,7 +245,18 @@ def run(ck, facts, tier):
         else:
             ck.violation(R, "push_answer:key=whole-answer-subst", pa.where(), "the duplicate check must be keyed by the whole canonical answer substitution")
         # index returned is the position pushed at
-        lens = [n for n in walk(pa.thir) if n.get("k") == "let" and n.get("init") is not None and has_call(n["init"], "Vec::len") and mentions_field(n["init"], "answers")]
+        def reads_len(e_):
+            # `self.answers.len()` directly, or through a Table accessor (next_answer_index) that is nothing but that
+            if has_call(e_, "Vec::len") and mentions_field(e_, "answers"):
+                return True
+            for c_ in calls(e_):
+                hb_ = facts.body(c_.get("res") or c_.get("fn") or "")
+                if hb_ is not None and hb_.thir is not None and "Table::" in hb_.key and has_call(hb_.thir, "Vec::len") and \
+                        mentions_field(hb_.thir, "answers") and not mutated_self_fields(hb_.thir, "Table"):
+                    return True
+            return False
+        from kit import mutated_self_fields
+        lens = [n for n in walk(pa.thir) if n.get("k") == "let" and n.get("init") is not None and reads_len(n["init"])]
         if lens:
             ck.ok(R, "push_answer:index=len-before-push")
         else:
@@ -266,7 +277,9 @@ def run(ck, facts, tier):
             ck.violation(R, "next_answer:exactly-one-increment", na.where(), "next_answer must be `peek; increment once; return`")
     pk = need_body(ck, facts, R, FS + "peek_answer")
     if pk:
-        ms = [m for m in walk(pk.thir) if m.get("k") == "match" and has_call(m["scrut"], "root_answer")]
+        # the match on what root_answer returned - on the call itself or on a local it was bound to
+        ms = [m for m in walk(pk.thir) if m.get("k") == "match" and (has_call(m["scrut"], "root_answer") or
+                                                                     ("Result<" in m.get("sty", "") and "RootSearchFail" in m.get("sty", "")))]
         if len(ms) != 1:
             ck.violation(R, "peek_answer:match", pk.where(), "expected the match on root_answer(..)")
         else:
